@@ -133,6 +133,16 @@ func typeOfSx(e *sx) (*T, error) {
 			return nil, err
 		}
 		return &T{K: "n", Name: n, Elems: []*T{in}}, nil
+	case "en":
+		t := &T{K: "en"}
+		for _, a := range args {
+			sym, err := unhex(a.atom)
+			if err != nil {
+				return nil, err
+			}
+			t.Syms = append(t.Syms, sym)
+		}
+		return t, nil
 	case "a", "s", "m", "u", "e":
 		t := &T{K: k}
 		for _, a := range args {
